@@ -35,7 +35,7 @@ func c13r1(c *Ctx) {
 	})
 	checkGuards(c, GuardSpec{
 		Name: "EndpointShards", Struct: p.Named(pkgModel, "EndpointShards"), Guard: "RWMutex",
-		Fields: map[string]bool{"Shards": true, "ServiceAccounts": true},
+		Fields: map[string]bool{"Shards": true, "ServiceAccounts": true, "unlinked": true},
 		Locked: map[string]int{"pilot/pkg/model.updateShardServiceAccount": modeW, "(*pilot/pkg/model.EndpointShards).Keys": modeR},
 		Exempt: map[string]string{},
 	})
@@ -69,6 +69,7 @@ func c13r2(c *Ctx) {
 		if len(handles) == 0 {
 			continue
 		}
+		unlinked := p.Field(pkgModel, "EndpointShards", "unlinked")
 		la := newLockAnalysis(p)
 		la.run(fn, lockset{}, func(ins ssa.Instruction, held lockset) {
 			// writes through a handle: MapUpdate / delete / store on handle.Shards, handle.ServiceAccounts,
@@ -100,17 +101,83 @@ func c13r2(c *Ctx) {
 				return
 			}
 			for i, h := range handles {
-				if base != h {
+				if base != h && !phiContains(base, h) {
 					continue
 				}
 				n++
 				need := pathOf(idx[i]) + ".mu"
 				okh := held[need] >= modeR
+				if !okh {
+					// re-validation: the write is under the `not unlinked` edge of a test of handle.unlinked, and the handle's
+					// own lock is held at the write (the tombstone is set by unlinkers under that lock)
+					var live []Edge
+					for _, iff := range allIfs(fn) {
+						v, neg := stripNot(iff.Cond)
+						if fieldOfLoad(v) != unlinked {
+							continue
+						}
+						if b, _ := fieldLoadOf(v, unlinked); b != h && !phiContains(b, h) && !phiContains(h, b) {
+							continue
+						}
+						idx := 1
+						if neg {
+							idx = 0
+						}
+						live = append(live, Edge{iff.Block(), idx})
+					}
+					ownLock := false
+					for k, m := range held {
+						if strings.HasSuffix(k, ".RWMutex") && m >= modeW {
+							ownLock = true
+						}
+					}
+					okh = ownLock && underEdges(fn, ins.Block(), live)
+				}
 				c.Check("write through a shard-set handle holds the index lock:"+shortFn(fn), ins.Pos(), okh,
 					what+" on a *EndpointShards that was looked up in the index and then used after the index lock was released: a concurrent delete of the service's last shard (deleteServiceInner with preserveKeys=false, from DeleteShard/PruneShard/DeleteServiceShard) can unlink this shard set in between, and the registry's latest report is then written into an object nobody reads (lost until that registry reports again)")
 			}
 		})
 	}
+	// every unlink sets the tombstone: a delete from a map of shard sets is followed on every path by unlinked = true
+	unlinkedF := p.Field(pkgModel, "EndpointShards", "unlinked")
+	nu := 0
+	for _, fn := range p.AllFuncs {
+		if funcPkgPath(fn) != istioMod+"/"+pkgModel || strings.HasSuffix(p.Fset.Position(fn.Pos()).Filename, "_test.go") || fn.Synthetic != "" {
+			continue
+		}
+		eachInstr(fn, func(ins ssa.Instruction) {
+			ci, ok := ins.(ssa.CallInstruction)
+			if !ok {
+				return
+			}
+			bi, ok := ci.Common().Value.(*ssa.Builtin)
+			if !ok || bi.Name() != "delete" {
+				return
+			}
+			mt, ok := ci.Common().Args[0].Type().Underlying().(*types.Map)
+			if !ok {
+				return
+			}
+			if nn, ok := derefNamed(mt.Elem()); !ok || nn.Obj().Name() != "EndpointShards" {
+				return
+			}
+			nu++
+			bad := pathAvoiding(fn, ins, func(i ssa.Instruction) bool {
+				st, ok := i.(*ssa.Store)
+				if !ok {
+					return false
+				}
+				fa, ok := st.Addr.(*ssa.FieldAddr)
+				if !ok || fieldVar(fa.X.Type(), fa.Field) != unlinkedF {
+					return false
+				}
+				b, isC := constBool(st.Val)
+				return isC && b
+			}, isReturn)
+			c.Check("unlinking a shard set marks it unlinked:"+shortFn(fn), ins.Pos(), bad == nil, "a shard set is removed from the index without being marked unlinked: a writer that looked it up earlier cannot notice and writes into the orphan (lost update)")
+		})
+	}
+	c.Check("unlink sites found", token.NoPos, nu >= 1, "no site removing a shard set from the index found")
 	c.Check("writes through looked-up shard sets found", token.NoPos, n >= 1, "no such write found (the rule's positive instance on the pinned tree is UpdateServiceEndpoints)")
 	// check-then-insert under one write lock in GetOrCreateEndpointShard
 	goc := p.Func(pkgModel, "EndpointIndex", "GetOrCreateEndpointShard")
@@ -206,4 +273,19 @@ func mapOperand(ins ssa.Instruction) ssa.Value {
 		}
 	}
 	return nil
+}
+
+// phiContains: v is a phi (transitively) one of whose incoming values is x.
+func phiContains(v, x ssa.Value) bool {
+	var ls []ssa.Value
+	phiLeaves(v, map[ssa.Value]bool{}, &ls)
+	if len(ls) == 1 && ls[0] == v {
+		return false
+	}
+	for _, l := range ls {
+		if l == x {
+			return true
+		}
+	}
+	return false
 }
